@@ -1331,7 +1331,20 @@ void save_option_file(FILE *pfile, bool with_doc, bool minimal)
 
          if (option->type() == OT_STRING)
          {
-            fprintf(pfile, "\"%s\"", val.c_str());
+            // the reader removes one level of backslashes and ends at the quote
+            std::string escaped;
+
+            for (const char ch : val)
+            {
+               if (  ch == '\\'
+                  || ch == '"')
+               {
+                  escaped += '\\';
+               }
+               escaped += ch;
+            }
+
+            fprintf(pfile, "\"%s\"", escaped.c_str());
          }
          else
          {
